@@ -332,8 +332,14 @@ Definition decode_body (st : dstate) (maxSize maxSeg : Z) (hb : list Z) (log : l
       end
   end.
 
+(* the number of segments Decode accepts.  [fixed] = true: the repaired code rejects
+   maxSeg >= maxStreamSegments, i.e. accepts at most 512 segments; false: the code as found
+   tested maxSeg > maxStreamSegments and accepted 513. *)
+Definition seg_count_limit (fixed : bool) : Z :=
+  if fixed then max_stream_segments else max_stream_segments + 1.
+
 (* func (d *Decoder) Decode() *)
-Definition decode1 (st : dstate) : dstate * dout * list alloc :=
+Definition decode1_gen (fixed : bool) (st : dstate) : dstate * dout * list alloc :=
   let maxSize := if d_max st =? 0 then default_decode_limit else d_max st in
   if negb (d_max st =? 0) && (d_max st <? word_size) then (st, DErr EConfig, [])
   else
@@ -343,7 +349,7 @@ Definition decode1 (st : dstate) : dstate * dout * list alloc :=
     | (RFok w, r') =>
       let st := with_rd st r' in
       let maxSeg := le32_get w in
-      if maxSeg >? max_stream_segments then (st, DErr ETooManySegs, [])
+      if maxSeg + 1 >? seg_count_limit fixed then (st, DErr ETooManySegs, [])
       else if maxSeg =? 0 then decode_body st maxSize maxSeg w []
       else
         let hdrSize := stream_header_size maxSeg in
@@ -358,15 +364,19 @@ Definition decode1 (st : dstate) : dstate * dout * list alloc :=
           end
     end.
 
+Definition decode1 : dstate -> dstate * dout * list alloc := decode1_gen true.
+
 (* histories: Decode calls interleaved with ReuseBuffer() and assignments to MaxMessageSize *)
 Inductive dop := OpDecode | OpReuse | OpSetMax (m : Z).
 
-Definition dstep (st : dstate) (o : dop) : dstate * option (dout * list alloc) :=
+Definition dstep_gen (fixed : bool) (st : dstate) (o : dop) : dstate * option (dout * list alloc) :=
   match o with
-  | OpDecode => let '(st', out, log) := decode1 st in (st', Some (out, log))
+  | OpDecode => let '(st', out, log) := decode1_gen fixed st in (st', Some (out, log))
   | OpReuse => (mkD (d_rd st) (d_hdrcap st) (d_bufcap st) true (d_max st), None)
   | OpSetMax m => (mkD (d_rd st) (d_hdrcap st) (d_bufcap st) (d_reuse st) (wrap64 m), None)
   end.
+
+Definition dstep : dstate -> dop -> dstate * option (dout * list alloc) := dstep_gen true.
 
 Fixpoint run_history (st : dstate) (ops : list dop) : dstate * list (dout * list alloc) :=
   match ops with
